@@ -5,19 +5,19 @@ CONSTANTS
   FutureSlots = 3
   Spread = 120
   NShards = 2
-  Metrics <- BMetrics2
+  Metrics <- BMetrics
   TimingShard = 1
-  T0 <- R0
-  Lags0 = {2, 5, 6, 64, 125}
+  T0 <- B0
+  Lags0 = {2, 5, 6, 125}
   Fulls0 = {FALSE, TRUE}
-  Ticks <- BTicks2
-  TsOffs <- BOffs2
+  Ticks <- BTicks
+  TsOffs <- BOffs
   Kinds = {"metric", "api"}
   SpreadOf <- EdgeSpread
   Variant = "code"
-  MaxOps = 5
+  MaxOps = 6
   MaxEvents = 2
 VIEW View
 INVARIANTS ExactlyOnce AllFlushed NotEarly RingOK Rounded Placement DropsJustified OutIncreasing SendBound ChanCap
-ACTION_CONSTRAINT ExportEnd
+ACTION_CONSTRAINT ExportBeh
 CHECK_DEADLOCK FALSE
